@@ -1,6 +1,6 @@
 (* C43 -- lemmas about the model in Model/C43.v *)
 From Coq Require Import ZArith List Bool Lia ZifyBool.
-From PV Require Import Bytes C43.
+From PV Require Import Bytes C43_gen C43.
 Import ListNotations.
 Open Scope Z_scope.
 
@@ -405,7 +405,9 @@ Proof.
   destruct (weak mod_type tests tries) eqn:Ew; [discriminate|].
   destruct (wrong_length size (bit_length modulus)) eqn:El; [discriminate|].
   intros H. injection H as <- <- <-.
-  exists mod_type, tests, tries, size, generator. unfold weak, wrong_length in *.
+  exists mod_type, tests, tries, size, generator.
+  unfold weak, wrong_length, min_type, min_tests, mr_bit, mr_tests_below, mr_min_tries, len_slack,
+    default_generator in *.
   repeat split; try lia.
 Qed.
 
@@ -504,3 +506,17 @@ Proof.
     destruct (b <=? x) eqn:E1; [|reflexivity]. assert (E2 : (a <=? x) = true) by lia. now rewrite E2. }
   now rewrite E.
 Qed.
+
+(* the class attributes read from the source are sane limits *)
+Lemma gex_limits : 1024 <= gex_min_bits <= gex_preferred_bits /\ gex_preferred_bits <= gex_max_bits.
+Proof. unfold gex_min_bits, gex_preferred_bits, gex_max_bits. lia. Qed.
+
+Lemma gex_live_consistent mn prefer mx :
+  let '(a, b, c) := normalise_request gex_min_bits gex_max_bits mn prefer mx in
+  a <= b <= c /\ gex_min_bits <= b <= gex_max_bits /\ a <= mn /\ mx <= c.
+Proof. apply normalise_consistent. pose proof gex_limits. lia. Qed.
+
+Lemma gex_live_honours p mn prefer mx r :
+  mn <= prefer <= mx -> gex_min_bits <= prefer <= gex_max_bits ->
+  gex_serve_live p mn prefer mx r = get_modulus p mn prefer mx r.
+Proof. apply gex_consistent_request. Qed.
